@@ -52,6 +52,10 @@ SCENIC_EXPRS = [
     "x implies y", "altitude to x", "minimum distance to x", "top front left of x",
     "ego", "workspace", "globalParameters", "globalParameters.x", "initial scenario",
     "position of x", "x in y", "new Object in r, facing toward p",
+    # instance creation without `new`
+    "Object beyond x by y", "Object at x", "Object facing x, with foo 3", "Car left of x by 2",
+    "Object visible", "Object in r", "Object following f for 3", "Object offset by x",
+    "Object ahead of x", "Object with foo 3", "Object beyond x by y from z",
     # plain Python expressions that are (in)valid targets, for the same positions
     "()", "[]", "(x, 3 deg)", "[x, new Object]", "*x", "x.y", "x[0]", "-x", "x if y else z",
     "lambda: x", "f()", "{}", "{1}", "...", "None", "True", "__debug__", "3", "'s'", "f'{x}'",
@@ -88,6 +92,12 @@ TARGET_POSITIONS = [
     "class C(metaclass={E}):\n    pass", "type X = {E}", "type {E} = int",
     "def f[T: {E}]():\n    pass", "print({E}, file={E})",
     "require {E}", "require[0.5] {E}", "require[{E}] x", "require {E} as {E}",
+    "require {E} if {E} else {E}", "require[0.5] {E} if {E} else {E}",
+    "terminate when {E} if {E} else {E}", "require not {E}", "require {E} and {E}",
+    "require {E} or not {E}", "require ({E}) until ({E})", "require always ({E} if {E} else {E})",
+    "require lambda: {E}", "require {E} implies ({E} if {E} else {E})",
+    "record {E} if {E} else {E} as r", "x = ({E}) if ({E}) else ({E})",
+    "require eventually {E} until {E}", "require next ({E}) if {E} else {E}",
     "param {E} = 1", "param x = {E}, y = {E}", "mutate {E}", "mutate x by {E}",
     "record {E} as {E}", "record initial {E}", "terminate when {E}", "terminate after {E} seconds",
     "model {E}", "simulator {E}", "ego = {E}", "workspace = {E}",
@@ -358,8 +368,10 @@ def selfcheck():
         raise HarnessError("c10 tdel")
     if apply("a\nb\n", [["join", 0, 0, 0]]) != "ab\n":
         raise HarnessError("c10 join")
-    if "(x := new Object)" not in apply("x = 1\n", [["move", 0, 38, 997]]) or \
-            "behavior VfB():" not in apply("x = 1\n", [["move", 0, 38, 0]]):
-        raise HarnessError("c10 move/wrap: " + repr(apply("x = 1\n", [["move", 0, 38, 0]])))
-    if "del new Object" not in apply("x = 1\n", [["move", 0, 12, 0]]):
-        raise HarnessError("c10 move: " + repr(apply("x = 1\n", [["move", 0, 12, 0]])))
+    k = TARGET_POSITIONS.index("(x := {E})")
+    if "(x := new Object)" not in apply("x = 1\n", [["move", 0, k, 997]]) or \
+            "behavior VfB():" not in apply("x = 1\n", [["move", 0, k, 0]]):
+        raise HarnessError("c10 move/wrap: " + repr(apply("x = 1\n", [["move", 0, k, 0]])))
+    k = TARGET_POSITIONS.index("del {E}")
+    if "del new Object" not in apply("x = 1\n", [["move", 0, k, 997 * 5]]):
+        raise HarnessError("c10 move: " + repr(apply("x = 1\n", [["move", 0, k, 997 * 5]])))
